@@ -40,6 +40,8 @@ type FollowOpts struct {
 	MemEvery int
 	// OnFollower lets the caller attach extra hooks before the run.
 	OnFollower func(r ROM, m *rig.Machine, f *lockstep.Follower)
+	// WrapStep, when set, supplies the per-cycle step function (it must call f.Cycle itself).
+	WrapStep func(r ROM, m *rig.Machine, f *lockstep.Follower) func() bool
 	// AfterRun is called with the outcome.
 	AfterRun func(r ROM, m *rig.Machine, f *lockstep.Follower, out Outcome)
 }
@@ -68,7 +70,11 @@ func FollowROMs(c *rig.Ctx, part string, roms []ROM, o FollowOpts) {
 		if o.OnFollower != nil {
 			o.OnFollower(r, m, f)
 		}
-		out := Run(r, m, buf, f.Cycle)
+		step := f.Cycle
+		if o.WrapStep != nil {
+			step = o.WrapStep(r, m, f)
+		}
+		out := Run(r, m, buf, step)
 		c.Eval(f.Instrs + f.Dispatches)
 		c.Count("rom_runs", 1)
 		c.Count("rom_instructions", f.Instrs)
